@@ -359,7 +359,7 @@ _LOCK = threading.Lock()
 
 
 def run_schedule(schedule, out=(), err=(), in_script=None, in_tty=False, pty=False, hold_open=False,
-                 start_fails=False, read_size=1000, explicit_streams=True, asynchronous=False, joins=1, **kw):
+                 start_fails=False, read_size=1000, explicit_streams=True, asynchronous=False, joins=1, async_via_config=False, **kw):
     """Execute one schedule on the real Runner.  Returns a dict of observations.
     asynchronous: `run(asynchronous=True)` returns a Promise (workers and timer already running); the main thread
     then parks at an extra gate `main:join` before calling `Promise.join()` (Lean: `MainPc.idle`)."""
@@ -376,7 +376,9 @@ def run_schedule(schedule, out=(), err=(), in_script=None, in_tty=False, pty=Fal
         earlier = []
         obs["earlier_results"] = earlier
         try:
-            r = GRunner(Context(Config()), pty=pty, start_fails=start_fails, read_size=read_size)
+            # the asynchronous flag may come from the call or from the configuration (`run.asynchronous`): same behaviour
+            cfg = Config(overrides={"run": {"asynchronous": True}}) if (asynchronous and async_via_config) else Config()
+            r = GRunner(Context(cfg), pty=pty, start_fails=start_fails, read_size=read_size)
             ins = ScriptedIn(sched, in_script, tty=in_tty) if in_script is not None else False
             out_stream, err_stream = io.StringIO(), io.StringIO()
             import sys as _sys
@@ -390,7 +392,8 @@ def run_schedule(schedule, out=(), err=(), in_script=None, in_tty=False, pty=Fal
                 threading.current_thread().actor = "main"
                 try:
                     if asynchronous:
-                        promise = r.run("cmd", in_stream=ins, encoding="utf-8", asynchronous=True, **kw)
+                        akw = {} if async_via_config else {"asynchronous": True}
+                        promise = r.run("cmd", in_stream=ins, encoding="utf-8", **akw, **kw)
                         sched.gate("main", "join")
                         # further joins of the same promise (`joins` > 1): each but the last is recorded, the main thread
                         # parks at `main:rejoin` before calling `join()` again (Lean: `rejoin`)
